@@ -42,7 +42,7 @@ META = {
  "outside_claim": [
   "machine code (Xtensa/x86) and back-end lowering of select/cmov, multiplication latency",
   "implementations not listed: i32, i62, ec m31/m62/m64, x86ni/pclmul/sse2/power8 intrinsics",
-  "production sizes (RSA/EC operand sizes, record lengths beyond the listed ones)",
+  "production sizes (RSA/EC operand sizes, record lengths beyond the listed ones; in particular CBC records longer than mac_len+256 bytes, where min_len = len-256: a 320-byte record did not finish in 15 min)",
   "the T0 handshake code (server handling of bad premaster / bad ECDH point)",
   "complete EC point multiplication api_mul of ec_p256_m15 / ec_prime_i15 / ec_c25519_m15 and ECDSA/ECDH on top (translate and validate, but >10^6 observations per run: dropped); only the p256_m15 scalar-multiplication core p256_mul is covered (thorough tier)",
   "RSA private-key operation br_rsa_i15_private / i31 (modular exponentiation is covered only as br_i15_modpow/modpow_opt at 42..77-bit moduli with 2-byte exponents)",
@@ -100,7 +100,7 @@ def _int_tus(w):
 BIG = [  # (fn number, name, sizes)
     (1, "add", {}), (2, "sub", {}), (3, "montymul", {}), (4, "muladd_small", {}), (5, "decode_mod", {}), (6, "encode", {}),
     (7, "modpow", {}), (8, "modpow_opt", {}), (9, "to_monty", {}), (10, "from_monty", {}), (11, "decode_reduce", {}),
-    (12, "reduce", {}), (13, "iszero", {}), (14, "bit_length", {}),
+    (12, "reduce", {}), (13, "iszero", {}), (14, "bit_length", {}), (16, "moddiv", {}),
 ]
 for iw in (15, 31):
     tus = _int_tus(iw)
@@ -114,6 +114,9 @@ for iw in (15, 31):
                 mw = ln + 1 + ((ln + 1) & 1)
                 szs.append(S(tag + "-w1", 40, tier=tier, TW=2 * mw, **d))
                 szs.append(S(tag + "-w2", 40, tier=tier, TW=5 * mw, **d))
+            elif nm == "moddiv":
+                ln = ((bits + 15) >> 4) if iw == 15 else ((bits + 31) >> 5)
+                szs.append(S(tag, 200, tier=tier, TW=4 * (ln + 2), **d))
             else:
                 szs.append(S(tag, 40, tier=tier, **d))
         entry("i%d_%s" % (iw, nm), "C08_bigint.c", tus, ["br_i%d_%s" % (iw, nm)], szs, real_units=tus,
@@ -142,7 +145,7 @@ SHA1 = ["src/hash/sha1.c", "src/codec/enc32be.c", "src/codec/dec32be.c"]
 MD5 = ["src/hash/md5.c", "src/codec/enc32le.c", "src/codec/dec32le.c"]
 entry("cbc_decrypt_sha1", "C08_cbc.c", CBC + SHA1, ["cbc_decrypt", "br_sha1_vtable"],
       [S("RL64-expl", 130, RL=64, EXPL=1, MACH=1), S("RL48-impl", 130, RL=48, EXPL=0, MACH=1),
-       S("RL96-expl", 200, RL=96, EXPL=1, MACH=1, tier="thorough"), S("RL320-expl", 500, RL=320, EXPL=1, MACH=1, tier="thorough")],
+       S("RL96-expl", 200, RL=96, EXPL=1, MACH=1, tier="thorough"), S("RL160-expl", 300, RL=160, EXPL=1, MACH=1, tier="thorough")],
       desc="cbc_decrypt + br_hmac_init/update/outCT + br_sha1 (all IR), stand-in block cipher",
       secret="all record bytes (padding length, padding, MAC, payload), cipher key, MAC key states", public="record length, explicit-IV flag, mac_len, seq/type/version, addresses; accept/reject declassified")
 entry("cbc_decrypt_md5", "C08_cbc.c", CBC + MD5, ["cbc_decrypt", "br_md5_vtable"],
@@ -228,7 +231,7 @@ entry("eax_check_tag", "C08_aead.c", ["src/aead/eax.c", SC + "aes_ct.c", SC + "a
 # 255 ladder steps for Curve25519 whatever the scalar length) -- hours of symex; dropped (META outside_claim).
 ECC = ["src/codec/ccopy.c", "src/codec/enc32be.c", "src/codec/dec32be.c"]
 entry("ec_p256_m15_p256_mul", "C08_ecmul.c", ["src/ec/ec_p256_m15.c"] + ECC, ["p256_mul"],
-      [S("x1", 300, XLEN=1, tier="thorough")], opts=("O0", "Os"), real_units=["src/ec/ec_secp256r1.c"] + ECC, timeout=900,
+      [S("x1", 300, XLEN=1, tier="thorough")], opts=("Os",), real_units=["src/ec/ec_secp256r1.c"] + ECC, timeout=900,
       desc="ec_p256_m15 p256_mul (window look-up by CCOPY, Jacobian double/add), 1-byte scalar", secret="scalar, point coordinate limbs", public="xlen, addresses")
 # negative controls (reported through extra_checks; they must FAIL)
 entry("aes_big_cbcenc", "C08_sym.c", [SC + "aes_big_enc.c", SC + "aes_big_cbcenc.c", SC + "aes_common.c", "src/codec/enc32be.c", "src/codec/dec32be.c"],
